@@ -229,7 +229,76 @@ for _prop in ("C18",):
     _event_wiring(_prop, "DelayAdjustedKernelSTDP", KS, "weight", True)
     _event_wiring(_prop, "DelayAdjustedKernelSTDPD", KS, "delay", True)
 
+
+HS = "inferno/learn/trainers/homeostasis.py"
+LBASE = "inferno/learn/base.py"
+
+TRAINER_CTORS = {
+    # class: (file, required hyper-parameter names in constructor order, properties the contract is registered under)
+    "STDP": (T2, ["lr_post", "lr_pre", "tc_post", "tc_pre"], ("C08", "C09")),
+    "StableSTDP": (T2, ["lr_post", "lr_pre", "tc_post", "tc_pre"], ("C08", "C09")),
+    "TripletSTDP": (T2, ["lr_post_pair", "lr_post_triplet", "lr_pre_pair", "lr_pre_triplet", "tc_post_fast", "tc_post_slow", "tc_pre_fast", "tc_pre_slow"], ("C08", "C09")),
+    "StableTripletSTDP": (T2, ["lr_post_pair", "lr_post_triplet", "lr_pre_pair", "lr_pre_triplet", "tc_post_fast", "tc_post_slow", "tc_pre_fast", "tc_pre_slow"], ("C08", "C09")),
+    "MSTDP": (T3, ["lr_post", "lr_pre", "tc_post", "tc_pre"], ("C08", "C09")),
+    "MSTDPET": (T3, ["lr_post", "lr_pre", "tc_post", "tc_pre", "tc_eligibility"], ("C08", "C09")),
+    "DelayAdjustedSTDP": (D2, ["lr_pos", "lr_neg", "tc_pos", "tc_neg"], ("C18", "C09")),
+    "DelayAdjustedSTDPD": (D2, ["lr_neg", "lr_pos", "tc_neg", "tc_pos"], ("C18", "C09")),
+    "DelayAdjustedMSTDP": (D3, ["lr_pos", "lr_neg", "tc_pos", "tc_neg"], ("C18", "C09")),
+    "DelayAdjustedMSTDPD": (D3, ["lr_neg", "lr_pos", "tc_neg", "tc_pos"], ("C18", "C09")),
+    "KernelSTDP": (KS, None, ("C18", "C09")),
+    "DelayAdjustedKernelSTDP": (KS, None, ("C18", "C09")),
+    "DelayAdjustedKernelSTDPD": (KS, None, ("C18", "C09")),
+}
+
+
+def _trainer_defaults(cls):
+    file, names, props = TRAINER_CTORS[cls]
+    for prop in props:
+        @contract(prop, f"{cls}.defaults", [(file, f"{cls}.__init__"), (file, f"{cls}._build_cell_state"), (LBASE, "CellTrainer.__init__"), (LBASE, "IndependentCellTrainer.__init__")], tags=("wiring",))
+        def defaults(c, cls=cls):
+            """the REAL constructor followed by the REAL _build_cell_state: every hyper-parameter reaches the per-cell state
+            under its own name (positional order as documented), per-cell overrides win, and the batch reduction is the
+            documented default torch.mean unless one is configured (on the trainer or for the cell)"""
+            cv = c.interp.classv(repo.load_module(file).classes[cls])
+            # documented defaults: the two-factor rules average over the batch, the reward-modulated (three-factor) rules sum
+            three_factor = cls in ("MSTDP", "MSTDPET", "DelayAdjustedMSTDP", "DelayAdjustedMSTDPD")
+            mean = c.interp.torch_ns.get("sum" if three_factor else "mean")
+            if names is None:
+                args = ["<kernel_post>", "<kernel_pre>", {"a": 1}, {"b": 2}]
+                vals = {}
+            else:
+                vals = {n: c.real(n) for n in names}
+                c.require(*[v > 0 for n, v in vals.items() if n.startswith("tc_")])
+                c.require(*[v != 0 for n, v in vals.items() if n.startswith("lr_")])
+                if "tc_post_slow" in vals:
+                    c.require(vals["tc_post_slow"] > vals["tc_post_fast"], vals["tc_pre_slow"] > vals["tc_pre_fast"])
+                args = [vals[n] for n in names]
+            cfg = c.choice("batch_reduction", ["default", "on_trainer", "for_the_cell"])
+            custom = "<custom reduction>"
+            tr = c.call(cv, *args, **({"batch_reduction": custom} if cfg == "on_trainer" else {}))
+            st = c.call(c.getattr(tr, "_build_cell_state"), **({"batch_reduction": custom} if cfg == "for_the_cell" else {}))
+            got = st.fields.get("batchreduce")
+            c.ensure("batch_reduction_default_is_the_documented_one_unless_configured", (got is mean) if cfg == "default" else (got == custom))
+            if names is not None:
+                # (the triplet learning rates are stored as magnitudes: their sign follows the pair term)
+                stored = lambda n: zabs(vals[n].z) if n.endswith("_triplet") else vals[n].z  # noqa: E731
+                c.ensure("hyperparameters_reach_the_state_under_their_own_names", z3.And(*[num(st.fields[n]) == stored(n) for n in names]))
+                first = names[0]
+                ov = c.real("override_" + first)
+                c.require(ov != 0)
+                st2 = c.call(c.getattr(tr, "_build_cell_state"), **{first: ov})
+                c.ensure("per_cell_override_wins", z3.And(num(st2.fields[first]) == ov.z, *[num(st2.fields[n]) == stored(n) for n in names[1:]]))
+            else:
+                c.ensure("kernels_and_their_kwargs_reach_the_state", st.fields["kernel_post"] == "<kernel_post>" and st.fields["kernel_pre"] == "<kernel_pre>" and dict(st.fields["kernel_post_kwargs"]) == {"a": 1} and dict(st.fields["kernel_pre_kwargs"]) == {"b": 2})
+            c.canary("canary_default_is_the_other_reduction", z3.BoolVal(cfg == "default" and got is c.interp.torch_ns.get("mean" if three_factor else "sum")))
+
+
+for _t in TRAINER_CTORS:
+    _trainer_defaults(_t)
+
 MUTANTS = [
+    dict(file=KS, func="DelayAdjustedKernelSTDP.__init__", old="        self.batchreduce = batch_reduction if batch_reduction else torch.mean", new="        self.batchreduce = batch_reduction if batch_reduction else torch.sum", contracts=["DelayAdjustedKernelSTDP.defaults"], name="seed C18b: default batch reduction sum instead of the documented mean"),
+    dict(file=D2, func="DelayAdjustedSTDPD.__init__", old="        self.lr_neg = float(lr_neg)", new="        self.lr_neg = float(lr_pos)", contracts=["DelayAdjustedSTDPD.defaults"]),
     dict(file=D2, func="DelayAdjustedSTDP.register_cell", old='            "spike_pre",\n            "synapse.spike",', new='            "spike_pre",\n            "connection.synspike",', contracts=["DelayAdjustedSTDP.register_cell"], name="delay-adjusted rule fed with already delayed spikes (delay counted twice)"),
     dict(file=D3, func="DelayAdjustedMSTDPD.register_cell", old='self._build_cell_state(**kwargs), ["delay"]', new='self._build_cell_state(**kwargs), ["weight"]', contracts=["DelayAdjustedMSTDPD.register_cell"]),
     dict(file=T3, func="MSTDPET.register_cell", old='subattrs=("trace_pre.latest", "spike_post.latest"),', new='subattrs=("trace_post.latest", "spike_post.latest"),', contracts=["MSTDPET.register_cell"]),
